@@ -475,6 +475,16 @@ func newWorld(st *stateD) *world {
 		}
 		w.players = append(w.players, bp)
 	}
+	// mid server switch: a player still LISTED on a server that is not (or no longer) its connected server
+	for _, sv := range st.servers {
+		for _, name := range sv.players {
+			for _, bp := range w.players {
+				if bp.d.name == name && (bp.d.conn == nil || bp.d.conn.server != sv.name) {
+					proxy.C26ListOnServer(bp.pl, regs[sv.name])
+				}
+			}
+		}
+	}
 	return w
 }
 
@@ -631,6 +641,16 @@ func genState(r *hx.Rng, layerB bool) *stateD {
 			if p.conn != nil && p.conn.server == s.name {
 				s.players = append(s.players, p.name)
 			}
+		}
+		if layerB {
+			// inconsistent but reachable: players that switched away (their connected server is another one) or
+			// lost their server are still in this server's list until the old session handler runs
+			for _, p := range st.players {
+				if (p.conn == nil || p.conn.server != s.name) && r.Chance(1, 4) {
+					s.players = append(s.players, p.name)
+				}
+			}
+			sort.Strings(s.players)
 		}
 		s.count = len(s.players)
 		if !layerB && r.Chance(1, 8) {
@@ -905,6 +925,39 @@ func main() {
 	w = nil
 	for _, d := range fixedRequests() {
 		doB("B-fixed-"+classOf(d), fs, "BungeeCord", d)
+	}
+
+	// mid server switch (regression for the adapter): Carol is current on pvp but still listed on lobby, whose only
+	// other player Alice has moved to hub2: nobody listed on lobby is connected to it
+	{
+		sw := fixedState()
+		sw.players[0].conn = &connD{server: "hub2", protocol: 765} // Alice
+		for _, sv := range sw.servers {
+			switch sv.name {
+			case "hub2":
+				sv.players = []string{"Alice"}
+			case "lobby":
+				sv.players = []string{"Carol"}
+			case "pvp":
+				sv.players = []string{"Carol", "bob"}
+			}
+			sv.count = len(sv.players)
+		}
+		run.Case("state", sw.line("astate"), "-")
+		w = nil
+		frame := cat(utf("MyChannel"), []byte{0, 3}, []byte{1, 2, 3})
+		for _, d := range [][]byte{
+			cat(utf("Forward"), utf("lobby"), frame), // must NOT land on pvp
+			cat(utf("Forward"), utf("ALL"), frame),   // pvp exactly once, lobby nothing
+			cat(utf("Forward"), utf("ONLINE"), frame),
+			cat(utf("Forward"), utf("pvp"), frame),
+			cat(utf("PlayerCount"), utf("lobby")),
+			cat(utf("PlayerList"), utf("lobby")),
+			cat(utf("GetPlayerServer"), utf("Carol")),
+			cat(utf("ForwardToPlayer"), utf("Carol"), frame),
+		} {
+			doB("B-switching-"+classOf(d), sw, "BungeeCord", d)
+		}
 	}
 
 	// 2. generated: layer A
